@@ -4,7 +4,7 @@
 // (`ser_injective`).  `valid()` is the (uninterpreted) predicate decided by `Valid::check`.
 #[derive(Clone, Copy, PartialEq, Eq)] pub enum Compress { Yes, No }
 #[derive(Clone, Copy, PartialEq, Eq)] pub enum Validate { Yes, No }
-pub enum SerializationError { NotEnoughSpace, InvalidData, UnexpectedFlags, IoError }
+#[derive(Debug)] pub enum SerializationError { NotEnoughSpace, InvalidData, UnexpectedFlags, IoError }
 pub struct Sink { pub bytes: Ghost<Seq<u8>> }      // `W: Write` -- the bytes written so far
 pub struct Source { pub bytes: Ghost<Seq<u8>> }    // `R: Read`  -- the bytes not yet consumed
 pub trait Canon: Sized {
@@ -105,5 +105,7 @@ pub fn ser_to_vec<T: SerBytes>(x: &T) -> (r: Result<Vec<u8>, SerializationError>
 { unimplemented!() }
 // CanonicalSerialize::serialize_uncompressed into a Vec<u8>: appends the (uncompressed) canonical encoding; writing to a Vec cannot fail
 pub trait SerU { spec fn ser_u(&self) -> Seq<u8>; fn serialize_uncompressed(&self, w: &mut Vec<u8>) -> (r: Result<(), SerializationError>) ensures r is Ok, final(w)@ == old(w)@ + self.ser_u(); }
-impl SerU for G1Affine { uninterp spec fn ser_u(&self) -> Seq<u8>; #[verifier::external_body] fn serialize_uncompressed(&self, w: &mut Vec<u8>) -> (r: Result<(), SerializationError>) { unimplemented!() } }
-impl SerU for Fr { uninterp spec fn ser_u(&self) -> Seq<u8>; #[verifier::external_body] fn serialize_uncompressed(&self, w: &mut Vec<u8>) -> (r: Result<(), SerializationError>) { unimplemented!() } }
+pub uninterp spec fn g1_ser_u(x: FS) -> Seq<u8>;
+pub uninterp spec fn fr_ser_u(x: FS) -> Seq<u8>;
+impl SerU for G1Affine { open spec fn ser_u(&self) -> Seq<u8> { g1_ser_u(self@) } #[verifier::external_body] fn serialize_uncompressed(&self, w: &mut Vec<u8>) -> (r: Result<(), SerializationError>) { unimplemented!() } }
+impl SerU for Fr { open spec fn ser_u(&self) -> Seq<u8> { fr_ser_u(self@) } #[verifier::external_body] fn serialize_uncompressed(&self, w: &mut Vec<u8>) -> (r: Result<(), SerializationError>) { unimplemented!() } }
